@@ -34,7 +34,14 @@ fn scenarios() -> Vec<Box<dyn Scenario>> {
 fn main() {
     exec::install_quiet_panic_hook();
     let args: Vec<String> = std::env::args().skip(1).collect();
-    let code = real_main(&args);
+    // anything that escapes is a bug of the driver: exit 2, never 101
+    let code = match std::panic::catch_unwind(|| real_main(&args)) {
+        Ok(c) => c,
+        Err(_) => {
+            eprintln!("HARNESS ERROR: the driver panicked");
+            2
+        }
+    };
     std::process::exit(code);
 }
 
